@@ -41,7 +41,7 @@ def gen_cb(rng: Any, ids: list[int], depth: int, allow_service: bool, p_raise: f
     routes = ["direct", "direct", "shortcut", "resource", "ctxteardown"] + (["service"] if allow_service and depth == 0 else [])
     route = rng.choice(routes)
     kind = rng.choice(["sync", "async", "async", "sync_awaitable"])
-    form = rng.choice(["function", "function", "function", "partial", "object", "unhashable_object", "misleading_signature", "equal_object", "equal_object", "opaque_object"])  # how the callable is given
+    form = rng.choice(["function", "function", "function", "partial", "object", "unhashable_object", "misleading_signature", "equal_object", "equal_object", "opaque_object", "method_of_temporary"])  # how the callable is given
     if route == "ctxteardown":
         kind = "async"
     cb: dict[str, Any] = {"id": cid, "route": route, "kind": kind, "pass_exception": False, "steps": [], "raises": None, "children": [], "form": form}
@@ -311,6 +311,23 @@ class Run:
             @functools.wraps(original)
             def probe(*a: Any, **k: Any) -> Any:  # noqa: F811
                 return inner_probe(*a, **k)
+        elif form == "method_of_temporary":
+            # a bound method of an object that nothing else refers to (`add_teardown_callback(LockFile(path).release)`): the
+            # registration is what keeps it alive until the teardown
+            inner_m = probe
+            if cb["kind"] == "async":
+                class Temporary:
+                    async def release(self, *a: Any) -> Any:
+                        return await inner_m(*a)
+            else:
+                class Temporary:  # type: ignore[no-redef]
+                    def release(self, *a: Any) -> Any:
+                        return inner_m(*a)
+
+            probe = Temporary().release
+            import gc
+
+            gc.collect()
         elif form in ("object", "unhashable_object", "equal_object", "opaque_object"):
             inner = probe
             # "unhashable": a callable object with __eq__ but no __hash__ (what a plain @dataclass with __call__ is);
@@ -824,6 +841,8 @@ def features(run: Run) -> dict[str, int]:
                 inc("callback_form_misleading_signature")
             else:
                 inc(f"callback_form_{byid[cid]['form'].replace('unhashable_', '').replace('equal_', '').replace('opaque_', '')}")
+                if byid[cid]["form"] == "method_of_temporary":
+                    inc("callback_form_bound_method_of_an_otherwise_unreferenced_object")
                 if byid[cid]["form"] == "opaque_object":
                     inc("callback_form_object_whose_repr_raises")
                 if byid[cid]["form"] == "equal_object":
